@@ -3,7 +3,7 @@ import sys, time
 sys.path.insert(0, "/verif")
 from pyvc.loader import Repo
 from pyvc.spec import Registry
-from pyvc.verify import Verifier, discharge
+from pyvc.verify import Verifier, discharge, to_smt2, to_smt2_ground, to_smt2_sliced, discharge_smt2
 from pyvc.symex import Unsupported
 import specs
 
@@ -23,9 +23,21 @@ for tgt, c in R.contracts.items():
     bg = v.background()
     print("== %s: %d paths %s, %d obligations (symex %.2fs)" % (tgt, v.npaths, v.exit_kinds, len(obls), time.time() - t0))
     for o in obls:
-        r = discharge(o, bg, timeout_ms=10000)
+        r = discharge_smt2(o.name, o.kind, o.line, to_smt2_ground(o), timeout_ms=2000, use_cvc5=False, retries=0, inproc=True)
+        if r.status != "proved":
+            r = discharge_smt2(o.name, o.kind, o.line, to_smt2(o, []), timeout_ms=5000, use_cvc5=False, retries=0)
+            r.backend = "z3 (no background)"
+        if r.status != "proved":
+            sl = to_smt2_sliced(o, bg)
+            if sl is not None:
+                r = discharge_smt2(o.name, o.kind, o.line, sl, timeout_ms=5000, use_cvc5=False, retries=0)
+                r.backend = "z3 (sliced)"
+            if r.status != "proved":
+                r = discharge(o, bg, timeout_ms=10000)
+        else:
+            r.backend = "z3 (qf)"
         flag = {"proved": "ok ", "refuted": "FAIL", "unknown": "??? "}[r.status]
         print("  %s %-70s %.3fs %s" % (flag, o.name[len(tgt)+1:], r.time_s, r.backend))
         if r.status != "proved":
-            print("       ", r.detail[:300])
+            print("       ", r.detail[:300], str(o.extra)[:300])
             if r.model: print("       ", r.model)
